@@ -410,15 +410,17 @@ class FillRequest(object):
         or, otherwise, the output of *el.request* is stored in a buffer,
         until it is requested.
         """
-        if self._n_count and not self._n_count % self.bufsize:
+        if self._n_count == self.bufsize:
+            # the element holds a complete block that was not requested yet
             if self._buffer_input:
                 self._buffer_in.append(value)
                 return
             else:
-                # add output to the output buffer
-                self._buffer_out.extend(self.request())
-                # don't reset because need to know that fill was called
-                # self._n_count = 0
+                # move the results for that block to the output buffer
+                self._buffer_out.extend(self._el_request())
+                if self._reset:
+                    self._el_reset()
+                self._n_count = 0
 
         self._el_fill(value)
         self._n_count += 1
@@ -429,60 +431,44 @@ class FillRequest(object):
         If input or output buffers were filled, all their contents
         are processed and yielded.
         """
+        if not self._buffer_input:
+            # results for the earlier blocks were buffered during fill
+            buffer_out = self._buffer_out
+            self._buffer_out = []
+            for val in buffer_out:
+                yield val
+
         # yield what was filled into the element
-        if self._n_count >= self.bufsize:
+        if self._n_count == self.bufsize:
             for val in self._el_request():
                 yield val
             if self._reset:
                 self._el_reset()
             # it is important that request is not called
             # when not enough values were filled after last request
-            self._n_count = self._n_count % self.bufsize
+            self._n_count = 0
 
-        # process buffers.
-        # Buffers are always filled after the element,
-        # therefore the order is correct.
-        if not self._buffer_input:
-            # all results are in _buffer_out
-            for val in self._buffer_out:
-                yield val
-            if self._yield_on_remainder:
-                for val in self._el_request():
-                    yield val
-            # reset was already called when filling _buffer_out
-            return
-        else:
-            # fill the buffer from _buffer_in and yield
-            nfills = 0
-            bufsize = self.bufsize
+        if self._buffer_input:
+            # fill the element from _buffer_in block by block and yield.
+            # The remainder stays in the element.
             buffer_in = self._buffer_in
-            while True:
-                if nfills == bufsize:
+            self._buffer_in = []
+            for value in buffer_in:
+                self._el_fill(value)
+                self._n_count += 1
+                if self._n_count == self.bufsize:
                     for val in self._el_request():
                         yield val
                     if self._reset:
                         self._el_reset()
-                    nfills = 0
-                    del buffer_in[:bufsize]
-                    # should be slower, because a slice below
-                    # copies elements
-                    ## self._buffer_in = self._buffer_in[bufsize:]
-                    continue
+                    self._n_count = 0
 
-                # fill the element with values from buffer
-                try:
-                    val = buffer_in[nfills]
-                except IndexError:
-                    if self._yield_on_remainder:
-                        for val in self._el_request():
-                            yield val
-                    break
-                else:
-                    self._el_fill(val)
-                    nfills += 1
-
-        if self._reset:
-            self._el_reset()
+        if self._yield_on_remainder and self._n_count:
+            for val in self._el_request():
+                yield val
+            if self._reset:
+                self._el_reset()
+            self._n_count = 0
 
     def reset(self):
         """Reset *el* (ignoring the initialization setting)."""
